@@ -7,6 +7,7 @@ package server4
 import (
 	"errors"
 	"net"
+	"sync"
 	"time"
 
 	"github.com/insomniacslk/dhcp/dhcpv4"
@@ -43,11 +44,11 @@ func (c *verifConn) ReadFrom(b []byte) (int, net.Addr, error) {
 	return n, r.peer, nil
 }
 func (c *verifConn) WriteTo(b []byte, a net.Addr) (int, error) { return len(b), nil }
-func (c *verifConn) Close() error                             { c.closes++; return nil }
-func (c *verifConn) LocalAddr() net.Addr                      { return &net.UDPAddr{Port: 67} }
-func (c *verifConn) SetDeadline(t time.Time) error            { return nil }
-func (c *verifConn) SetReadDeadline(t time.Time) error        { return nil }
-func (c *verifConn) SetWriteDeadline(t time.Time) error       { return nil }
+func (c *verifConn) Close() error                              { c.closes++; return nil }
+func (c *verifConn) LocalAddr() net.Addr                       { return &net.UDPAddr{Port: 67} }
+func (c *verifConn) SetDeadline(t time.Time) error             { return nil }
+func (c *verifConn) SetReadDeadline(t time.Time) error         { return nil }
+func (c *verifConn) SetWriteDeadline(t time.Time) error        { return nil }
 
 type verifCallRec struct {
 	conn net.PacketConn
@@ -139,8 +140,11 @@ func VerifC14Serve(k1, k2, k3, peers int) {
 		}
 	}
 	var calls []verifCallRec
+	var mu sync.Mutex
 	s := &Server{conn: conn, logger: EmptyLogger{}, Handler: func(c net.PacketConn, peer net.Addr, m *dhcpv4.DHCPv4) {
+		mu.Lock() // handlers run concurrently
 		calls = append(calls, verifCallRec{c, peer, m})
+		mu.Unlock()
 	}}
 	err := s.Serve()
 	verifSettle() // let every handler goroutine run
@@ -229,9 +233,12 @@ func VerifC14Many(n int) {
 		conn.script = append(conn.script, verifRead{data: p.ToBytes(), peer: peer})
 	}
 	var calls []verifCallRec
+	var mu sync.Mutex
 	s := &Server{conn: conn, logger: EmptyLogger{}, Handler: func(c net.PacketConn, peer net.Addr, m *dhcpv4.DHCPv4) {
 		<-conn.release
+		mu.Lock() // handlers run concurrently
 		calls = append(calls, verifCallRec{c, peer, m})
+		mu.Unlock()
 	}}
 	err := s.Serve()
 	verifSettle()
